@@ -261,7 +261,7 @@ PROPS = {
                   "and line attribution; second reference = quandary's stream parser on the textual flattening",
         rule="trees of 1-6 files in ./, sub/, sub/deeper/, other/ (each file included once, relative paths with ../, quoted or "
              "not), directive origins present/absent, $TTL lines and blank-owner / omitted-TTL / omitted-class records right "
-             "after an include, depth limits 0-4 around the depth the tree needs. distinct = (files, depth needed, limit, too deep); a quarter of the root files have no $ORIGIN at all (absolute names only), and half of the returns from an include into such a file are followed by a relative-owner or @ line that must end the parse with an error; half of the cases change into the tree (mostly into the root file's own directory) and open the root file by a relative path (bare, './', 'other/../')",
+             "after an include, depth limits 0-4 around the depth the tree needs. distinct = (files, depth needed, limit, too deep); a quarter of the root files have no $ORIGIN at all (absolute names only), and half of the returns from an include into such a file are followed by a relative-owner or @ line that must end the parse with an error; half of the cases change into the tree (mostly into the root file's own directory) and open the root file by a relative path (bare, './', 'other/../'); one included file in six has the octet 0xF6 in its name (not valid UTF-8; spelled \\246 in the directive)",
         assumptions=COMMON_ASSUMPTIONS + ["files are written under /verif/work (removed afterwards)", "IN WKS values are not compared here (known finding of C23)"],
         quick=plans(dict(build="dbg", nshards=16)),
         thorough=plans(dict(build="dbg", nshards=16), dict(build="rel", nshards=16), dict(build="asan", nshards=16, scale=0.2)),
@@ -291,7 +291,7 @@ PROPS = {
         rule="prefix lengths v4 in {0,1,8,16,24,31,32}, v6 in {0,1,48,56,63,64}; table sizes {1,7,1024,65537}; slip 0/1; second "
              "request derived from the first: same or one bit flipped at/inside/outside the prefix boundary, IPv4 vs mapped "
              "IPv6, case variants, two names under one wildcard / under different wildcards, NODATA vs answer, NXDOMAIN vs "
-             "REFUSED vs FORMERR, TCP, NOTIFY/UPDATE/STATUS opcodes. distinct = (relation, limited, category, prefixes, wildcard); an eighth of the requests carry an OPT with EDNS version 1 (BADVERS, whose low four RCODE bits equal NOERROR: it belongs to the per-prefix stream of all other RCODEs); sources include IPv6 addresses in ::/96 (the IPv4-compatible spelling of the IPv4 addresses in play), which are IPv6 sources, not IPv4-mapped ones; a quarter of the servers keep the default prefix lengths (/24, /56) without the setters being called",
+             "REFUSED vs FORMERR, TCP, NOTIFY/UPDATE/STATUS opcodes. distinct = (relation, limited, category, prefixes, wildcard); an eighth of the requests carry an OPT with EDNS version 1 (BADVERS, whose low four RCODE bits equal NOERROR: it belongs to the per-prefix stream of all other RCODEs); sources include IPv6 addresses in ::/96 (the IPv4-compatible spelling of the IPv4 addresses in play), which are IPv6 sources, not IPv4-mapped ones; a quarter of the servers keep the default prefix lengths (/24, /56) without the setters being called; the zone holds mail. / ma.il. / m.ail.rrl.test. (same octets, different label boundaries: different names and streams)",
         assumptions=COMMON_ASSUMPTIONS + ["pairs taking >= 0.5 s of real time are discarded", "a 2^-32 QNAME-hash collision would be a false alarm"],
         quick=plans(dict(build="dbg", nshards=16)),
         thorough=plans(dict(build="dbg", nshards=16), dict(build="rel", nshards=16)),
@@ -341,7 +341,7 @@ PROPS = {
              "failpoint mode 0 (none), 1 (catalog swap inside every third request right after the snapshot / before dispatch), "
              "2 (key-set swap before dispatch). evaluations = responses judged; evidence: responses overlapping a swap, "
              "in-request swaps, signed answers verified, BADKEY responses, failpoint hit counts. distinct = (readers, failpoint "
-             "mode, generations published, overlap seen, signed ok seen, BADKEY seen); catalog swaps and key-set swaps are ordered separately, and in half of the histories a second thread rolls keys over while the first swaps catalogs (the two setters run concurrently)",
+             "mode, generations published, overlap seen, signed ok seen, BADKEY seen); catalog swaps and key-set swaps are ordered separately, and in half of the histories a second thread rolls keys over while the first swaps catalogs (the two setters run concurrently); every history ends with 24 trials in which two threads install two fresh catalog generations at the same instant (spinning gate) and the next request must be answered from one of the two",
         assumptions=COMMON_ASSUMPTIONS + ["freshness is judged with logical clocks only (no wall-clock): a response generation g must satisfy published-before <= g <= started-after"],
         quick=plans(dict(build="dbg", nshards=16, parallel=4), dict(build="miri", nshards=2, timeout=900)),
         thorough=plans(dict(build="dbg", nshards=16, parallel=4), dict(build="rel", nshards=16, parallel=4),
@@ -360,7 +360,7 @@ PROPS = {
              "octet / 1-3 octets / 1-700 octets per segment with delays up to 50 ms (read timeout is 5 s). UDP batch: 1-3 "
              "client sockets x 1-6 datagrams with unique IDs; every datagram received must come from the server address, match "
              "an outstanding ID once, equal the reference response and fit the payload size; missing datagrams are not "
-             "violations. distinct = (provider, batch shape) classes; a fourteenth of the TCP requests are padded to 65535 / 65534 / 65533 / 65532 / 32768 / 16384 / 16383 / 4096 octets. Known finding (open): when the server closes after a response-less request while further client octets are unread, whole earlier responses may be lost to the reset; that exact shape is reported as KNOWN-FINDING, every other difference as a violation; batches with boundary-length requests are written in segments of 4 000-30 000 octets, and a batch whose writing took more than 4 s is not judged (the statement's premise is arrival within the 5 s read timeout); each shard runs one slow client per provider: request 1 in two segments 3.2 s apart, 2.5 s idle, request 2 (each message has its own 5 s allowance)",
+             "violations. distinct = (provider, batch shape) classes; a fourteenth of the TCP requests are padded to 65535 / 65534 / 65533 / 65532 / 32768 / 16384 / 16383 / 4096 octets. Known finding (open): when the server closes after a response-less request while further client octets are unread, whole earlier responses may be lost to the reset; that exact shape is reported as KNOWN-FINDING, every other difference as a violation; batches with boundary-length requests are written in segments of 4 000-30 000 octets, and a batch whose writing took more than 4 s is not judged (the statement's premise is arrival within the 5 s read timeout); each shard runs one slow client per provider: request 1 in two segments 3.2 s apart, 2.5 s idle, request 2 (each message has its own 5 s allowance); every instance also serves a 50 KiB TXT RRset and every fourth shard runs one back-pressure batch per provider (about 110 pipelined queries for it, the client starts reading 1.5 s late, every response must arrive whole and in order)",
         assumptions=COMMON_ASSUMPTIONS + [
             "timeouts of the harness (connect 5 s, read 8 s) make a batch inconclusive, never violated",
             "nightly builds (ASan/TSan) exclude the Tokio provider: proc-macro2 1.0.51 does not compile on the nightly toolchain"],
@@ -385,7 +385,7 @@ PROPS = {
              "every zone is queried for its SOA: serving(v) needs an authoritative SOA with serial v owned by the zone, "
              "never-loaded needs SERVFAIL, absent needs the answer of the longest configured ancestor (REFUSED / "
              "SERVFAIL / NXDOMAIN with the ancestor's current SOA). distinct = (zone, observed state class, initial "
-             "load or reload) classes; the thorough tier repeats part of the workload with quandaryd under valgrind memcheck",
+             "load or reload) classes; the thorough tier repeats part of the workload with quandaryd under valgrind memcheck; every zone file $INCLUDEs a side file that histories break and repair independently of the zone file (a failed load must be retried at every reload until it succeeds)",
         assumptions=COMMON_ASSUMPTIONS + [
             "mtime-based change detection is part of the daemon's contract: every rewritten file gets a strictly larger mtime",
             "the configuration file itself is always valid; a reload that does not become visible within the poll budget "
